@@ -261,34 +261,52 @@ package syntax
 //@   ensures forall i int :: 0 <= i && i < len(data) ==> exists j int :: 0 <= j && j < len(data) && data[i].First == old(data[j].First) && data[i].Last == old(data[j].Last)
 //@   ensures forall j int :: 0 <= j && j < len(data) ==> exists i int :: 0 <= i && i < len(data) && data[i].First == old(data[j].First) && data[i].Last == old(data[j].Last)
 
-// canonicalize: same members, ranges sorted and separated. (Body: see the second contract block; the rewrites that
-// introduce negation are membership preserving here - the defect is that the add* functions call it mid-construction.)
+// A class that canonicalize turned into "everything but one range" is marked inverted; its sense for the parser is
+// still positive. ParserNeg is the sense the parser chose ([^...]); the add* functions must keep it.
+//@ spec func ParserNeg(c CharSet) bool = c.negate && !c.inverted
+//@ spec func InvOK(c CharSet) bool = c.inverted ==> c.negate && len(c.ranges) == 1 && len(c.categories) == 0 && 0 <= c.ranges[0].First && c.ranges[0].First <= c.ranges[0].Last
+
+// canonicalize: same members, ranges sorted and separated, the parser's sense kept. The rewrites that introduce
+// negation record it in c.inverted.
 //@ func (c *CharSet) canonicalize()
 //@   props C16
 //@   trusted merge loop and rewrites not yet verified; contract used by the add* functions
-//@   requires c != nil && RangesValid(c.ranges) && CatsKnown(c.categories)
-//@   modifies c.ranges, c.negate, c.anything, c.categories, elems(SingleRange)
+//@   requires c != nil && RangesValid(c.ranges) && CatsKnown(c.categories) && InvOK(*c)
+//@   modifies c.ranges, c.negate, c.inverted, c.anything, c.categories, elems(SingleRange)
 //@   ensures[member] forall ch rune {mark(ch)} :: ValidRune(ch) ==> Member(*c, ch) == old(Member(*c, ch))
-//@   ensures[sorted] RangesSorted(c.ranges) && RangesValid(c.ranges) && CatsKnown(c.categories) && c.sub == old(c.sub)
+//@   ensures[sorted] RangesSorted(c.ranges) && RangesValid(c.ranges) && CatsKnown(c.categories) && c.sub == old(c.sub) && InvOK(*c)
+//@   ensures[sense]  ParserNeg(*c) == old(ParserNeg(*c))
 
-// The add* functions accumulate into the inner set and must leave the sense of the class (negate) alone: the parser
+// restore: the positive form of an inverted class (same members); anything else is left alone
+//@ func (c *CharSet) restore()
+//@   props C16
+//@   requires c != nil && RangesValid(c.ranges) && InvOK(*c)
+//@   modifies c.ranges, c.negate, c.inverted, c.ranges[*]
+//@   ensures[plain]  !old(c.inverted) ==> c.ranges == old(c.ranges) && c.negate == old(c.negate) && !c.inverted && forall i int :: 0 <= i && i < len(c.ranges) ==> c.ranges[i].First == old(c.ranges[i].First) && c.ranges[i].Last == old(c.ranges[i].Last)
+//@   ensures[pos]    old(c.inverted) ==> !c.negate && !c.inverted
+//@   ensures[wf]     RangesValid(c.ranges) && !c.inverted && c.sub == old(c.sub) && c.categories == old(c.categories) && c.anything == old(c.anything)
+//@   ensures[member] forall ch rune {mark(ch)} :: ValidRune(ch) ==> BaseMember(*c, ch) == old(BaseMember(*c, ch))
+//@   ensures[sense]  ParserNeg(*c) == old(ParserNeg(*c))
+
+// The add* functions accumulate into the class and must leave the sense the parser gave it alone: the parser
 // sets negate once, for [^...], before adding anything.
 //@ func (c *CharSet) addRange(chMin rune, chMax rune)
 //@   props C16
-//@   requires c != nil && RangesValid(c.ranges) && CatsKnown(c.categories) && 0 <= chMin && chMin <= chMax
-//@   modifies c.ranges, c.negate, c.anything, c.categories, elems(SingleRange)
-//@   ensures[wf] RangesSorted(c.ranges) && RangesValid(c.ranges) && CatsKnown(c.categories) && c.sub == old(c.sub)
-//@   ensures[negate-kept] c.negate == old(c.negate)
-//@   ensures[union-pos] !old(c.negate) ==> forall ch rune {mark(ch)} :: ValidRune(ch) ==> Member(*c, ch) == ((old(BaseMember(*c, ch)) || (chMin <= ch && ch <= chMax)) && !(c.sub != nil && MemberP(c.sub, ch)))
-//@   ensures[union-neg] old(c.negate) ==> forall ch rune {mark(ch)} :: ValidRune(ch) ==> Member(*c, ch) == (old(BaseMember(*c, ch)) && !(chMin <= ch && ch <= chMax) && !(c.sub != nil && MemberP(c.sub, ch)))
+//@   requires c != nil && RangesValid(c.ranges) && CatsKnown(c.categories) && InvOK(*c) && 0 <= chMin && chMin <= chMax
+//@   modifies c.ranges, c.negate, c.inverted, c.anything, c.categories, elems(SingleRange)
+//@   ensures[wf] RangesSorted(c.ranges) && RangesValid(c.ranges) && CatsKnown(c.categories) && c.sub == old(c.sub) && InvOK(*c)
+//@   ensures[negate-kept] ParserNeg(*c) == old(ParserNeg(*c))
+//@   ensures[union-pos] !old(ParserNeg(*c)) ==> forall ch rune {mark(ch)} :: ValidRune(ch) ==> Member(*c, ch) == ((old(BaseMember(*c, ch)) || (chMin <= ch && ch <= chMax)) && !(c.sub != nil && MemberP(c.sub, ch)))
+//@   ensures[union-neg] old(ParserNeg(*c)) ==> forall ch rune {mark(ch)} :: ValidRune(ch) ==> Member(*c, ch) == (old(BaseMember(*c, ch)) && !(chMin <= ch && ch <= chMax) && !(c.sub != nil && MemberP(c.sub, ch)))
 
 //@ func (c *CharSet) addRanges(ranges []SingleRange)
 //@   props C16
-//@   requires c != nil && RangesValid(c.ranges) && CatsKnown(c.categories) && RangesValid(ranges)
-//@   modifies c.ranges, c.negate, c.anything, c.categories, elems(SingleRange)
-//@   ensures[wf] !old(c.anything) ==> RangesSorted(c.ranges) && RangesValid(c.ranges) && CatsKnown(c.categories) && c.sub == old(c.sub)
-//@   ensures[negate-kept] c.negate == old(c.negate)
-//@   ensures[union-pos] !old(c.negate) && !old(c.anything) ==> forall ch rune {mark(ch)} :: ValidRune(ch) ==> Member(*c, ch) == ((old(BaseMember(*c, ch)) || old(InRanges(ranges, ch))) && !(c.sub != nil && MemberP(c.sub, ch)))
+//@   requires c != nil && RangesValid(c.ranges) && CatsKnown(c.categories) && InvOK(*c) && RangesValid(ranges)
+//@   requires[no-alias] ranges == nil || ref(ranges) != ref(c.ranges)
+//@   modifies c.ranges, c.negate, c.inverted, c.anything, c.categories, elems(SingleRange)
+//@   ensures[wf] !old(c.anything) ==> RangesSorted(c.ranges) && RangesValid(c.ranges) && CatsKnown(c.categories) && c.sub == old(c.sub) && InvOK(*c)
+//@   ensures[negate-kept] ParserNeg(*c) == old(ParserNeg(*c))
+//@   ensures[union-pos] !old(ParserNeg(*c)) && !old(c.anything) ==> forall ch rune {mark(ch)} :: ValidRune(ch) ==> Member(*c, ch) == ((old(BaseMember(*c, ch)) || old(InRanges(ranges, ch))) && !(c.sub != nil && MemberP(c.sub, ch)))
 //@   ensures[anything] old(c.anything) ==> c.ranges == old(c.ranges) && c.negate == old(c.negate)
 
 //@ func (c *CharSet) makeAnything()
